@@ -65,8 +65,16 @@ func tm(id string) *remote.TestMessage { return &remote.TestMessage{Data: []byte
 
 func engRemote(variants []remParams) vsched.Instance {
 	var p remParams
-	var a, b *remNode
+	var a, b, b2 *remNode
+	var spawnTargets func(n *remNode)
 	var sends []remSend
+	bLog := func() []Ev {
+		l := append([]Ev{}, b.k.Log...)
+		if b2 != nil {
+			l = append(l, b2.k.Log...)
+		}
+		return l
+	}
 	var reqGot any
 	var reqErr error
 	reqDone := false
@@ -75,15 +83,18 @@ func engRemote(variants []remParams) vsched.Instance {
 		vnet.Reset()
 		vsched.BeginSetup()
 		down := p.FailDials >= 3
-		a = newRemNode(remAddrA, !down)
+		a = newRemNode(remAddrA, (!down && !p.Restart) || p.NoEvents)
 		b = newRemNode(remAddrB, true)
-		for i := 1; i <= 2; i++ {
-			b.k.E.Spawn(b.k.Producer(fmt.Sprintf("t%d", i), func(k *Kit, c *actor.Context, inc int) {
-				if m, ok := c.Message().(*remote.TestMessage); ok && strings.HasPrefix(string(m.Data), "req") {
-					c.Respond(tm("re:" + string(m.Data)))
-				}
-			}), "t", actor.WithID(fmt.Sprint(i)))
+		spawnTargets = func(n *remNode) {
+			for i := 1; i <= 2; i++ {
+				n.k.E.Spawn(n.k.Producer(fmt.Sprintf("t%d", i), func(k *Kit, c *actor.Context, inc int) {
+					if m, ok := c.Message().(*remote.TestMessage); ok && strings.HasPrefix(string(m.Data), "req") {
+						c.Respond(tm("re:" + string(m.Data)))
+					}
+				}), "t", actor.WithID(fmt.Sprint(i)))
+			}
 		}
+		spawnTargets(b)
 		var actorSender *actor.PID
 		if p.Actor {
 			actorSender = a.k.E.Spawn(a.k.Producer("S", func(k *Kit, c *actor.Context, inc int) {
@@ -110,6 +121,9 @@ func engRemote(variants []remParams) vsched.Instance {
 					var snd *actor.PID
 					if p.WithSender && i%2 == 1 {
 						snd = actor.NewPID(remAddrA, fmt.Sprintf("x/%d", t))
+						if p.SelfSender {
+							snd = actor.NewPID(tgt.Address, tgt.ID)
+						}
 					}
 					vsched.Touch("sends")
 					sends = append(sends, remSend{id: id, target: fmt.Sprintf("t%d", tn), sender: pidStr(snd)})
@@ -132,6 +146,15 @@ func engRemote(variants []remParams) vsched.Instance {
 			})
 		}
 		vsched.Quiesce()
+		if p.Restart {
+			// the peer goes away (every connection to it is lost) and a new node comes up on its address
+			b.r.Stop().Wait()
+			vsched.Quiesce()
+			vsched.BeginSetup()
+			b2 = newRemNode(remAddrB, true)
+			spawnTargets(b2)
+			vsched.EndSetup()
+		}
 		for i := 0; i < p.Late; i++ {
 			id := fmt.Sprintf("late%d", i)
 			sends = append(sends, remSend{id: id, target: "t1", late: true})
@@ -148,7 +171,7 @@ func engRemote(variants []remParams) vsched.Instance {
 		// deliveries on B
 		delivered := map[string]int{}
 		order := map[string][]string{} // target -> ids in delivery order
-		for _, e := range b.k.Log {
+		for _, e := range bLog() {
 			if e.Kind != "recv" {
 				continue
 			}
@@ -210,7 +233,7 @@ func engRemote(variants []remParams) vsched.Instance {
 					sig = "remote/message-neither-delivered-nor-dead-lettered-after-unreachable"
 				}
 				vs = append(vs, V(sig, "%s: %s vanished; B: %s; A events: %v", p, s.id, b.k.LogString(), a.k.Events()))
-			case dl == 1 && failedAttempts == 0:
+			case dl == 1 && failedAttempts == 0 && !p.Restart:
 				vs = append(vs, V("remote/message-dead-lettered-although-peer-reachable", "%s: %s", p, s.id))
 			}
 		}
@@ -244,7 +267,18 @@ func engRemote(variants []remParams) vsched.Instance {
 				last[th] = n
 			}
 		}
-		if !down(p) {
+		if p.Restart {
+			// losing the established connection is reported once; nothing was in flight, and the
+			// sends after the new node came up make a fresh attempt and arrive
+			if unreachable != 1 && !p.NoEvents {
+				vs = append(vs, V("remote/wrong-number-of-unreachable-events", "%s: %d RemoteUnreachableEvents for one lost connection; events %v", p, unreachable, a.k.Events()))
+			}
+			for i := 0; i < p.Late; i++ {
+				if id := fmt.Sprintf("late%d", i); delivered[id] != 1 {
+					vs = append(vs, V("remote/no-fresh-attempt-after-unreachable-episode", "%s: %s sent after the peer came back was not delivered (dead-lettered %d times); dials %d", p, id, dead[id], vnet.DialAttempts(remAddrB)))
+				}
+			}
+		} else if !down(p) {
 			if unreachable != 0 {
 				vs = append(vs, V("remote/unreachable-event-although-peer-reachable", "%s: %d events", p, unreachable))
 			}
@@ -280,7 +314,7 @@ func engRemote(variants []remParams) vsched.Instance {
 			return ""
 		}
 		var ds []rparams.Delivery
-		for _, e := range b.k.Log {
+		for _, e := range bLog() {
 			if m, ok := e.Raw.(*remote.TestMessage); ok && e.Kind == "recv" && !strings.HasPrefix(string(m.Data), "req") {
 				ds = append(ds, rparams.Delivery{Actor: e.Actor, ID: string(m.Data), Sender: e.Sender})
 			}
@@ -320,12 +354,12 @@ func down(p remParams) bool { return p.Down() }
 
 func init() {
 	up, dn, upT := rparams.Up, rparams.Dn, rparams.UpLarge
-	Register(&Job{Name: "C17/remote/peer-up", Prop: "C17", Bound: 1, BoundT: 2, Budget: 35, BudgetT: 900, Shards: 7, DumpOutcomes: true,
+	Register(&Job{Name: "C17/remote/peer-up", Prop: "C17", Bound: 1, BoundT: 2, Budget: 60, BudgetT: 900, Shards: 10, DumpOutcomes: true,
 		Desc: "two real engines with real Remote/router/writer/reader over the in-memory transport: 1-2 sender threads x 1-3 messages to 1-2 actors on the peer (with/without sender PID), an actor sender, a request/response pair, 0-2 failing dial attempts inside the writer's retry loop: exactly-once, right target and sender, per-sender order, reply reaches the requester, no unreachable event",
 		Make: func() vsched.Instance { return engRemote(up) }})
 	Register(&Job{Name: "C17/remote/peer-down", Prop: "C17", Bound: 1, BoundT: 2, Budget: 35, BudgetT: 900, Shards: 4, DumpOutcomes: true,
 		Desc: "the peer refuses all 3 dial attempts of the first (and second) connection attempt: RemoteUnreachableEvent once per failed attempt, every message handed to that attempt dead-lettered exactly once (conservation: delivered xor dead-lettered), a send after the episode settled triggers a fresh dial and arrives once the peer is up",
 		Make: func() vsched.Instance { return engRemote(dn) }})
-	Register(&Job{Name: "C17/remote/peer-up-large", Prop: "C17", Tier: "thorough", Bound: 1, BoundT: 2, Budget: 50, BudgetT: 900, Shards: 10, DumpOutcomes: true,
+	Register(&Job{Name: "C17/remote/peer-up-large", Prop: "C17", Tier: "thorough", Bound: 1, BoundT: 2, Budget: 50, BudgetT: 900, Shards: 15, DumpOutcomes: true,
 		Desc: "as peer-up with 3 senders / 3 messages per sender / request + actor sender", Make: func() vsched.Instance { return engRemote(upT) }})
 }
